@@ -256,6 +256,11 @@ pub fn check(ctx: &mut Ctx, c: &Case) -> Outcome {
             }
         }
         Eff::L(k) => {
+            // "a line ending in a blank continues on the next line": when that next line is empty the
+            // statement does not say whether the continuation ends there (GNU) or carries over
+            if lines.iter().enumerate().any(|(i, l)| l.ends_with(is_blank) && i >= c.lead.len() && c.blanks_before.get(i - c.lead.len() + 1).copied().unwrap_or(0) > 0 && i + 1 < lines.len()) {
+                return Pass::discard("a line ending in a blank is followed by an empty line (-L mode)");
+            }
             // a line ending in a blank continues on the next line
             let mut logical: Vec<Vec<String>> = vec![];
             let mut cont = false;
